@@ -94,6 +94,12 @@ class Handler(mode.Handler):
             p.events.append((name, n, [repr(ex.subst(p, a)) if not is_word(a) else "data" for a in args], I.id))
             return None
         p.events.append(("CALL", n, name, tuple(repr(ex.subst(p, a)) if not is_word(a) else "data" for a in args), I.id))
+        if name == "tinyjambu_clean" and len(args) >= 2 and not is_word(args[0]) and not is_word(args[1]):
+            # a wipe is a store of zeros: a temporary wiped before its last use then shows in the values compared
+            ob_, _of = ex.subst(p, args[0]).base()
+            lc = ex.subst(p, args[1]).const()
+            if ob_ is not None and ob_[0] == "alloca" and lc is not None and 0 < lc <= 256:
+                ex.store(p, args[0], [gf2.ZERO] * (8 * lc), lc, None)
         return None
 
 
@@ -364,6 +370,8 @@ def run_finalize(ck_ob, mod, label):
         blk = pend + [gf2.const_word(1, 8)] + [gf2.const_word(0, 8)] * (15 - pz)
         pev = [e for e in p.events if e[0] == "P"]
         calls = [e for e in p.events if e[0] in ("CALL", "memcpy-var", "memset-var")]
+        # (a wipe of a local temporary - e.g. a word array the digest is assembled in - hashes nothing)
+        calls = [e for e in calls if not (e[0] == "CALL" and e[2] == "tinyjambu_clean" and str(e[3][0]).startswith("alloca"))]
         c("CONSTR", not calls, "finalize-calls(posn=%d)" % pz, "only permutation calls", "unexpected calls / unresolved variable-length fill: %s" % [x[2] for x in calls][:3])
         r = check_compress_events(lambda rule, cond, cons, ok, bad, where=None: c(rule, cond, cons + "(posn=%d)" % pz, ok, bad, where), f, p, pev, S0, K0, blk, 2, "final")
         if r:
